@@ -166,9 +166,10 @@ def fset(cfg):
 
 
 TLC_STATS = re.compile(r"(\d+) states generated, (\d+) distinct states found")
+SIM_STATS = re.compile(r"([\d,]+) states checked")
 
 
-def tlc(module, cfgtext, run, workers=8, timeout=1800, env_extra=None, xss="1g", xmx="12g"):
+def tlc(module, cfgtext, run, workers=8, timeout=1800, env_extra=None, xss="1g", xmx="12g", simulate=None):
     """Run TLC; returns dict(out_lines, vec_path, n_vec, verdicts, generated, distinct, ok, errors)."""
     os.makedirs(os.path.join(WORK, "tlc"), exist_ok=True)
     cfgpath = os.path.join(WORK, "tlc", run + ".cfg")
@@ -184,7 +185,11 @@ def tlc(module, cfgtext, run, workers=8, timeout=1800, env_extra=None, xss="1g",
     cmd = ["timeout", str(timeout), "java", "-Xss" + xss, "-Xmx" + xmx, "-XX:+UseParallelGC",
            "-DTLA-Library=" + SPEC, "-Dtlc2.tool.queue.IStateQueue=StateDeque",
            "-cp", TLA_CP, "tlc2.TLC", "-workers", str(workers), "-metadir", meta, "-cleanup",
-           "-noGenerateSpecTE", "-config", cfgpath, os.path.join(SPEC, module + ".tla")]
+           "-noGenerateSpecTE", "-config", cfgpath]
+    if simulate:
+        # random behaviours of the state machine: simulate = (number of behaviours, depth, seed)
+        cmd += ["-simulate", "num=%d" % simulate[0], "-depth", str(simulate[1]), "-seed", str(simulate[2])]
+    cmd += [os.path.join(SPEC, module + ".tla")]
     vecpath = os.path.join(WORK, "tlc", run + ".vec")
     res = dict(cmd=" ".join(cmd), vec_path=vecpath, n_vec=0, verdicts=[], generated=0, distinct=0,
                ok=False, errors=[], log=[])
@@ -205,6 +210,9 @@ def tlc(module, cfgtext, run, workers=8, timeout=1800, env_extra=None, xss="1g",
                 m = TLC_STATS.search(line)
                 if m:
                     res["generated"], res["distinct"] = int(m.group(1)), int(m.group(2))
+                m = SIM_STATS.search(line)
+                if m:
+                    res["generated"] = res["distinct"] = int(m.group(1).replace(",", ""))
                 if line.startswith("Error:") or "Exception" in line:
                     res["errors"].append(line)
         rc = p.wait()
@@ -212,6 +220,8 @@ def tlc(module, cfgtext, run, workers=8, timeout=1800, env_extra=None, xss="1g",
     res["rc"] = rc
     shutil.rmtree(meta, ignore_errors=True)
     done = any("Model checking completed. No error has been found" in l for l in res["log"])
+    if simulate:
+        done = rc == 0 and any("states checked" in l or "Finished in" in l for l in res["log"])
     res["ok"] = (rc == 0 and done and not res["errors"])
     if rc == 124:
         res["errors"].append("TLC timed out after %ds" % timeout)
